@@ -832,6 +832,140 @@ def enum_raw_idents():
     return cases
 
 
+# ------------------------------------------------------------------ run histories
+PAYS = {"User": ["struct", ["User"]], "Progress": ["struct", ["Progress"]], "Tick": ["struct", ["models", "Tick"]],
+        "int": ["lit", "int"], "str": ["lit", "str", "s"], "bool": ["lit", "bool"], "unit": ["tuple", []]}
+HFILES = ["src/a_first.rs", "src/lib.rs", "src/z_last.rs"]
+
+
+def sites_case(sites, zod=False, mappings=None):
+    """sites: [{"file": 0..2, "name": event, "pay": key of PAYS, "to": bool}], in source order per file"""
+    files = []
+    for fi, fname in enumerate(HFILES):
+        body = []
+        for s_ in sites:
+            if s_["file"] == fi:
+                e = EMIT_TO(V("app"), s_["name"], PAYS[s_["pay"]]) if s_.get("to") else EMIT(V("app"), s_["name"], PAYS[s_["pay"]])
+                body.append(["expr", M(e, "ok")])
+        fns = [{"name": "emitter_%d" % fi, "cmd": False, "wrap": None, "params": [["app", None, APP_T]], "body": body}]
+        if fi == 1:
+            fns.append(command_fn(0))
+        files.append({"name": fname, "fns": fns})
+    c = {"files": files, "zod": zod}
+    if mappings:
+        c["mappings"] = mappings
+    return c
+
+
+def hist_edits():
+    """edit name -> function on the site list (returns a new list)"""
+    import copy
+
+    def chg(pos):
+        def f(sites, rng):
+            ss = copy.deepcopy(sites)
+            multi = [n for n in {s_["name"] for s_ in ss} if sum(1 for t in ss if t["name"] == n) >= 2] or [ss[0]["name"]] if ss else []
+            if not ss:
+                return ss
+            n = rng.choice(sorted(multi))
+            idx = [i for i, t in enumerate(ordered(ss)) if t[1]["name"] == n]
+            k = {"first": idx[0], "middle": idx[len(idx) // 2], "last": idx[-1]}[pos]
+            tgt = ordered(ss)[k][0]
+            ss[tgt]["pay"] = rng.choice([p for p in sorted(PAYS) if p != ss[tgt]["pay"]])
+            return ss
+        return f
+
+    def ordered(ss):
+        return sorted(enumerate(ss), key=lambda it: (HFILES[it[1]["file"]].split("/"), it[0]))
+
+    def rename_all(ss, rng):
+        ss = copy.deepcopy(ss)
+        if ss:
+            n = rng.choice(sorted({t["name"] for t in ss}))
+            for t in ss:
+                if t["name"] == n:
+                    t["name"] = n + "-v2"
+        return ss
+
+    def rename_one(ss, rng):
+        ss = copy.deepcopy(ss)
+        if ss:
+            rng.choice(ss)["name"] += "-x"
+        return ss
+
+    def add_new(ss, rng):
+        return copy.deepcopy(ss) + [{"file": rng.randrange(3), "name": "added-%d" % len(ss), "pay": rng.choice(sorted(PAYS))}]
+
+    def add_existing(ss, rng):
+        ss = copy.deepcopy(ss)
+        if ss:
+            ss.insert(rng.randrange(len(ss) + 1), {"file": rng.randrange(3), "name": rng.choice(ss)["name"], "pay": rng.choice(sorted(PAYS))})
+        return ss
+
+    def remove_one(ss, rng):
+        ss = copy.deepcopy(ss)
+        if ss:
+            ss.pop(rng.randrange(len(ss)))
+        return ss
+
+    def move_file(ss, rng):
+        ss = copy.deepcopy(ss)
+        if ss:
+            t = rng.choice(ss)
+            t["file"] = rng.choice([f for f in range(3) if f != t["file"]])
+        return ss
+
+    def swap_order(ss, rng):
+        ss = copy.deepcopy(ss)
+        if len(ss) >= 2:
+            i = rng.randrange(len(ss) - 1)
+            ss[i], ss[i + 1] = ss[i + 1], ss[i]
+        return ss
+
+    return {"unchanged": lambda ss, rng: copy.deepcopy(ss), "payload-first-site": chg("first"), "payload-middle-site": chg("middle"),
+            "payload-last-site": chg("last"), "rename-event": rename_all, "rename-one-site": rename_one, "add-new-event": add_new,
+            "add-site-of-existing": add_existing, "remove-emit": remove_one, "move-emit-to-other-file": move_file,
+            "swap-emits": swap_order, "emit-to-toggle": lambda ss, rng: [dict(t, to=not t.get("to")) for t in ss],
+            "remove-all": lambda ss, rng: []}
+
+
+def enum_histories(rng, n_random):
+    """every single edit after a base run (then an unchanged re-run), through the CLI and through the build-script entry
+    point, plus random histories of 2-4 runs; all runs unforced into one output directory"""
+    edits = hist_edits()
+    bases = [
+        [{"file": 0, "name": "tick", "pay": "int"}, {"file": 1, "name": "tick", "pay": "str"}, {"file": 2, "name": "tick", "pay": "User"},
+         {"file": 1, "name": "job-done", "pay": "Progress"}],
+        [{"file": 1, "name": "status", "pay": "User"}, {"file": 1, "name": "status", "pay": "bool", "to": True}, {"file": 1, "name": "solo", "pay": "unit"}],
+        [{"file": 2, "name": "only", "pay": "Tick"}],
+    ]
+    hists = []
+    i = 0
+    for base in bases:
+        for en in sorted(edits):
+            for entry in ("cli", "build"):
+                i += 1
+                zod = i % 3 == 0
+                v1 = edits[en](base, rng)
+                steps = [sites_case(base, zod), sites_case(v1, zod), sites_case(v1, zod)]
+                hists.append({"entry": entry, "edits": [en, "unchanged"], "steps": steps})
+    names = sorted(edits)
+    for _ in range(n_random):
+        i += 1
+        ss = [{"file": rng.randrange(3), "name": rng.choice(["tick", "tick", "sync", "user-updated"]), "pay": rng.choice(sorted(PAYS)),
+               "to": rng.random() < 0.2} for _ in range(rng.randint(1, 5))]
+        zod = rng.random() < 0.3
+        mp = {"User": "string"} if rng.random() < 0.2 else None
+        steps, eds = [sites_case(ss, zod, mp)], []
+        for _ in range(rng.randint(1, 3)):
+            en = rng.choice(names)
+            ss = edits[en](ss, rng)
+            eds.append(en)
+            steps.append(sites_case(ss, zod, mp))
+        hists.append({"entry": rng.choice(["cli", "build"]), "edits": eds, "steps": steps})
+    return hists
+
+
 def payload_forms():
     forms = {
         "str": SL("hello"), "int": ["lit", "int"], "float": ["lit", "float"], "bool": ["lit", "bool"], "unit": ["tuple", []],
